@@ -344,6 +344,16 @@ def matrix_pool(tier, script_fn):
         ('{a:true}', {'a': True}),
         ('{a:1.0}', {'a': 1.0}),
     ]
+    # Objects with different key sets where an earlier shared key already decides the order (sorted (key, value) pairs are
+    # compared lexicographically: the value of a is looked at before the second key)
+    pool += [
+        ('{a:1,c:1}', {'a': 1, 'c': 1}),
+        ('{a:1,b:1}', {'a': 1, 'b': 1}),
+        ('{a:2}', {'a': 2}),
+        ('{c:0,a:2}rev', {'c': 0, 'a': 2}),
+        ('{b:1}', {'b': 1}),
+        ('{a:1,b:2,c:3}', {'a': 1, 'b': 2, 'c': 3}),
+    ]
     # Fractional magnitudes on both sides of 1 (a negative base to such a power is not a real number), and datetimes with a
     # sub-millisecond part (their text shows the millisecond truncated: .999, none/.000, .001).
     pool += [
@@ -407,6 +417,9 @@ ORDER_LABELS = ([(op, 2) for op in OPS14] + [('if2', 2), ('hh2', 2), ('ff2', 2),
                 [('!', 1), ('neg', 1), ('group', 1), ('if1', 1), ('hh1', 1), ('ff1', 1)] +
                 [('if3', 3), ('hh3', 3), ('ff3', 3)])
 LABEL_SETS = {'effects': EFFECT_LABELS, 'order': ORDER_LABELS}
+# Leaf kinds: None = effect call tt(i); 'gc' = read of the global variable gc, which every tt call increments (so a read
+# that happens too early or too late shows in the value).
+LEAF_KINDS = {'effects': [None], 'order': [None, 'gc']}
 
 _SHAPES = {}
 
@@ -416,7 +429,7 @@ def effect_shape_list(n, which='effects'):
     (label, kid, ...); a leaf is None. Order: by root label, then by child sizes, then children in their own order."""
     if (which, n) not in _SHAPES:
         if n == 0:
-            _SHAPES[(which, n)] = [None]
+            _SHAPES[(which, n)] = list(LEAF_KINDS[which])
         else:
             out = []
             for label, arity in LABEL_SETS[which]:
@@ -432,9 +445,9 @@ def effect_shapes(n, which='effects'):
 
 
 def label_counts(which):
-    """(unary, binary, ternary) numbers of labels - the parameters of tree_count."""
+    """(leaf kinds, unary, binary, ternary) numbers of labels - the parameters of tree_count."""
     arities = [a for _, a in LABEL_SETS[which]]
-    return arities.count(1), arities.count(2), arities.count(3)
+    return len(LEAF_KINDS[which]), arities.count(1), arities.count(2), arities.count(3)
 
 
 def _call_name(label):
@@ -444,10 +457,13 @@ def _call_name(label):
 
 
 def effect_model(shape):
-    """Expression model of a shape; leaves become tt(0), tt(1), ... numbered left to right. Returns (model, leaves)."""
+    """Expression model of a shape; tt leaves become tt(0), tt(1), ... numbered left to right, 'gc' leaves the variable gc.
+    Returns (model, number of tt leaves)."""
     counter = [0]
 
     def build(node):
+        if node == 'gc':
+            return {'variable': 'gc'}
         if node is None:
             i = counter[0]
             counter[0] += 1
@@ -471,6 +487,8 @@ def effect_text(shape):
     counter = [0]
 
     def show(node):
+        if node == 'gc':
+            return 'gc'
         if node is None:
             i = counter[0]
             counter[0] += 1
